@@ -1146,3 +1146,27 @@ Proof.
   destruct V as (((( _ & He) & Hs) & _) & _). split; [apply Nat.eqb_eq; exact He|].
   apply Forall_forall. intros x Hx. rewrite forallb_forall in Hs. apply Nat.eqb_eq. apply Hs. exact Hx.
 Qed.
+
+(* ---------- sigand (n-way): accepted transcripts have exactly count components ---------- *)
+
+Theorem andn_accept_lengths (P : sproto) (count : nat) xs az e zs :
+  andn_verify P count xs az e zs = true ->
+  length xs = count /\ length az = count /\ length zs = count.
+Proof.
+  intros V. apply andn_verify_iff in V. destruct V as (H1 & H2 & H3 & _). repeat split; assumption.
+Qed.
+
+(* a response (or commitment) vector with one component more or fewer is rejected *)
+Theorem andn_wrong_response_count (P : sproto) (count : nat) xs az e zs :
+  length zs <> count -> andn_verify P count xs az e zs = false.
+Proof.
+  intros H. destruct (andn_verify P count xs az e zs) eqn:V; [|reflexivity].
+  apply andn_accept_lengths in V. destruct V as (_ & _ & V). contradiction.
+Qed.
+
+Theorem andn_wrong_commitment_count (P : sproto) (count : nat) xs az e zs :
+  length az <> count -> andn_verify P count xs az e zs = false.
+Proof.
+  intros H. destruct (andn_verify P count xs az e zs) eqn:V; [|reflexivity].
+  apply andn_accept_lengths in V. destruct V as (_ & V & _). contradiction.
+Qed.
